@@ -1,8 +1,14 @@
 (* C19 driver: no logic, only parsing of case lines and printing of the model's results.
 
-   FIO;<mode C|D|T>;<srcs a,b>;<out -|c|o:name>;<flags f r y as 0/1>;<fs name=R<tok>|name=D,...>;<verdicts>;<probes a,b>
-     verdict of one source:  name=<close_ok>:<cout 0|1|T<n>>:<cchunks t+t>:<items K+t+t/B+t/J+t>
-   SP;<skips0>;<frames>   skips0 = initial storedSkips of the first frame; frames separated by '|', chunks by ',', a chunk is a list of runs  z<n> (n zero bytes) / x<n> (n non-zero bytes) joined by '+'
+   FIO;<mode C|D|T>;<srcs a,b ("-" = stdin)>;<out -|c|o:name|O:dir>;<flags: force confirm rec excl as 0/1>;<rmk: letters r / k in command-line order>;
+       <dict name or empty>;<patch name or empty>;<fs name=R<tok>|name=D|name=L<target>,...>;<ls dir>child|child,...>;<verdicts>;<probes a,b>
+     verdict of one file:  name=<faults>:<cout 0|1|T<n>>:<cchunks t+t>:<items K+t+t/B+t/J+t>
+       faults = 7 characters 0/1 (1 = the call succeeds): fopen(src) remove(dst before re-creation) open(dst) fclose(dst) remove(artefact) fclose(src) remove(src),
+                then '-' or the number of write jobs after which fwrite fails
+   SM;<compress 0|1>;<d|f|n = default / --sparse / --no-sparse>;<destinations opened, in order: two characters each, to-stdout 0|1 and
+       was-a-regular-file-before 0|1, joined by ','>   ->  "SET v ..." = prefs->sparseFileSupport after each FIO_openDstFile
+   SP;<skips0>;<frames>   skips0 = initial storedSkips of the first frame; frames separated by '|', chunks by ',', a chunk is a list of runs
+       z<n> (n zero bytes) / x<n> (n non-zero bytes) joined by '+'; a chunk may be followed by *<k> (repeated k times)
 *)
 open C19model
 
@@ -13,8 +19,10 @@ let int_of_n = function N0 -> 0 | Npos p -> int_of_pos p
 let rec nat_of_int i = if i = 0 then O else S (nat_of_int (i - 1))
 let rec int_of_nat = function O -> 0 | S n -> 1 + int_of_nat n
 
-let path_of_string s = List.init (String.length s) (fun i -> n_of_int (Char.code s.[i]))
-let string_of_path p = String.concat "" (List.map (fun c -> String.make 1 (Char.chr (int_of_n c))) p)
+let raw_path s = List.init (String.length s) (fun i -> n_of_int (Char.code s.[i]))
+let raw_string p = String.concat "" (List.map (fun c -> String.make 1 (Char.chr (int_of_n c))) p)
+let path_of_string s = if s = "-" then stdinmark else raw_path s
+let string_of_path p = if p = stdinmark then "-" else if p = stdoutmark then "<stdout>" else raw_string p
 
 let split c s = if s = "" then [] else String.split_on_char c s
 let toks s = List.map (fun t -> n_of_int (int_of_string t)) (split '+' s)
@@ -35,12 +43,18 @@ let parse_item s =
 
 let parse_verdict s =
   match String.split_on_char ':' s with
-  | [cl; co; cc; items] ->
+  | [fl; co; cc; items] ->
+      let b k = fl.[k] = '1' in
+      let w = String.sub fl 7 (String.length fl - 7) in
       { v_chunks = List.map (fun t -> [t]) (toks cc); v_out = parse_outcome co;
-        v_items = List.map parse_item (split '/' items); v_close_ok = (cl = "1") }
+        v_items = List.map parse_item (split '/' items);
+        v_wfail = (if w = "-" then None else Some (nat_of_int (int_of_string w)));
+        v_open_ok = b 0; v_ovw_unlink_ok = b 1; v_creat_ok = b 2; v_close_ok = b 3;
+        v_art_unlink_ok = b 4; v_close_src_ok = b 5; v_rm_ok = b 6 }
   | _ -> failwith ("bad verdict " ^ s)
 
-let default_verdict = { v_chunks = []; v_out = Ret0; v_items = []; v_close_ok = true }
+let default_verdict = { v_chunks = []; v_out = Ret0; v_items = []; v_wfail = None; v_open_ok = true; v_ovw_unlink_ok = true;
+                        v_creat_ok = true; v_close_ok = true; v_art_unlink_ok = true; v_close_src_ok = true; v_rm_ok = true }
 
 let show_op = function
   | OOpenRead p -> "r:" ^ string_of_path p
@@ -60,33 +74,46 @@ let show_op = function
 let show_node = function
   | Absent -> "A"
   | Dir -> "D"
+  | Lnk t -> "L" ^ string_of_path t
   | Reg f -> (if f.f_closed then "C" else "O") ^ show_toks f.f_bytes
 
 let rec firstn_l k l = if k = 0 then [] else match l with [] -> [] | x :: t -> x :: firstn_l (k - 1) t
 
 let do_fio fields =
   match fields with
-  | [mode; srcs; out; flags; fs0; verds; probes] ->
+  | [mode; srcs; out; flags; rmk; dict; patch; fs0; lsd; verds; probes] ->
       let srcs = List.map path_of_string (split ',' srcs) in
       let out = if out = "-" then OutDefault else if out = "c" then OutStdout
-        else OutFile (path_of_string (String.sub out 2 (String.length out - 2))) in
+        else if out.[0] = 'O' then OutDir (raw_path (String.sub out 2 (String.length out - 2)))
+        else OutFile (raw_path (String.sub out 2 (String.length out - 2))) in
+      let opt s = if s = "" then None else Some (raw_path s) in
       let i = { i_mode = (match mode with "C" -> Compress | "D" -> Decompress | _ -> Test);
-                i_srcs = srcs; i_out = out; i_force = (flags.[0] = '1'); i_rm = (flags.[1] = '1');
-                i_confirm = (flags.[2] = '1') } in
-      let fsl = List.map (fun e -> match String.split_on_char '=' e with
-          | [n; v] -> (n, if v = "D" then Dir
-                          else Reg { f_bytes = toks (String.sub v 1 (String.length v - 1)); f_closed = true })
-          | _ -> failwith "bad fs") (split ',' fs0) in
+                i_srcs = srcs; i_out = out; i_force = (flags.[0] = '1');
+                i_rmk = List.init (String.length rmk) (fun k -> rmk.[k] = 'r');
+                i_confirm = (flags.[1] = '1'); i_rec = (flags.[2] = '1'); i_excl = (flags.[3] = '1');
+                i_dict = opt dict; i_patch = opt patch } in
+      let fsl = List.map (fun e ->
+          let k = String.index e '=' in
+          let n = String.sub e 0 k and v = String.sub e (k + 1) (String.length e - k - 1) in
+          (n, if v = "D" then Dir
+              else if v.[0] = 'L' then Lnk (raw_path (String.sub v 1 (String.length v - 1)))
+              else Reg { f_bytes = toks (String.sub v 1 (String.length v - 1)); f_closed = true })) (split ',' fs0) in
       let fs0 = fun p -> (try List.assoc (string_of_path p) fsl with Not_found -> Absent) in
+      let lsl0 = List.map (fun e ->
+          let k = String.index e '>' in
+          (String.sub e 0 k, List.map raw_path (split '|' (String.sub e (k + 1) (String.length e - k - 1))))) (split ',' lsd) in
+      let ls = fun p -> (try List.assoc (string_of_path p) lsl0 with Not_found -> []) in
       let vl = List.map (fun e ->
           let k = String.index e '=' in
           (String.sub e 0 k, parse_verdict (String.sub e (k + 1) (String.length e - k - 1)))) (split ',' verds) in
       let vs = fun p -> (try List.assoc (string_of_path p) vl with Not_found -> default_verdict) in
       let probes = split ',' probes in
-      let ops = fio_ops i fs0 vs in
+      let ops = fio_ops i ls fs0 vs in
+      let names = eff_srcs i ls fs0 in
       print_string ("OPS " ^ String.concat " " (List.map show_op ops) ^ "\n");
+      print_string ("NAMES " ^ String.concat " " (List.map string_of_path names) ^ "\n");
       print_string ("DST " ^ String.concat " " (List.map (fun s ->
-          string_of_path s ^ "=" ^ (match dst_of i s with Some d -> string_of_path d | None -> "-")) srcs) ^ "\n");
+          string_of_path s ^ "=" ^ (match dst_of i names s with Some d -> string_of_path d | None -> "-")) names) ^ "\n");
       let n = List.length ops in
       let show_state tag k ol =
         let st = run ol fs0 in
@@ -101,29 +128,44 @@ let do_fio fields =
       print_string "END\n"
   | _ -> failwith "bad FIO line"
 
-let parse_chunk s =
+let parse_runs s =
   List.concat (List.map (fun r ->
       let n = int_of_string (String.sub r 1 (String.length r - 1)) in
       if r.[0] = 'z' then List.init n (fun _ -> N0)
       else List.init n (fun j -> n_of_int (1 + (j mod 255)))) (split '+' s))
+
+(* a chunk, possibly repeated: "z131072*40000" *)
+let parse_chunk s =
+  match String.split_on_char '*' s with
+  | [r; k] -> let c = parse_runs r in List.init (int_of_string k) (fun _ -> c)
+  | _ -> [parse_runs s]
 
 let show_sop = function
   | SSeek n -> "S" ^ string_of_int (int_of_n n)
   | SWrite bs -> "W" ^ string_of_int (List.length bs)
 
 let do_sp skips0 frames =
-  let frames = List.map (fun f -> List.map parse_chunk (split ',' f)) (split '|' frames) in
+  let frames = List.map (fun f -> List.concat (List.map parse_chunk (split ',' f))) (split '|' frames) in
   let ops = match frames with
     | [] -> []
     | f0 :: tl -> app (sparse_ops f0 (n_of_int (int_of_string skips0))) (sparse_frames_ops tl) in
   print_string ("SOPS " ^ String.concat " " (List.map show_sop ops) ^ "\n");
-  if skips0 = "0" then begin
-    (* interpret the operations on the model file (not done for a huge initial skip: the hole would be materialised) *)
+  let total = List.fold_left (fun a f -> List.fold_left (fun a c -> a + List.length c) a f) 0 frames in
+  if skips0 = "0" && total <= 4000000 then begin
+    (* interpret the operations on the model file (not done for huge files: the holes would be materialised) *)
     let r = s_run ops empty_file in
     let plain = s_run (List.concat (List.map plain_ops frames)) empty_file in
     print_string (Printf.sprintf "SRES len=%d pos=%d equal_plain=%b\n" (List.length r.s_data) (int_of_n r.s_pos)
                     (r.s_data = plain.s_data))
   end;
+  print_string "END\n"
+
+let do_sm compress arg dsts =
+  let a = match arg with "f" -> SpForce | "n" -> SpNever | _ -> SpDefault in
+  let v0 = sparse_init (compress = "1") a in
+  let _, out = List.fold_left (fun (v, acc) d ->
+      let v' = sparse_open v (d.[0] = '1') (d.[1] = '1') in (v', acc @ [string_of_int (int_of_n v')])) (v0, []) (split ',' dsts) in
+  print_string ("SET " ^ String.concat " " out ^ "\n");
   print_string "END\n"
 
 let () =
@@ -134,6 +176,7 @@ let () =
         match String.split_on_char ';' line with
         | "FIO" :: rest -> do_fio rest
         | ["SP"; sk; fr] -> do_sp sk fr
+        | ["SM"; c; a; d] -> do_sm c a d
         | _ -> print_string "ERR bad line\nEND\n"
       end;
       flush stdout
